@@ -8,6 +8,21 @@ ALL = [f'C{i:02d}' for i in range(1, 21)]
 
 # property -> (level text, level note, technique, design section)
 CHECKS = {
+    'C13': (
+        'Kernel-decided obligations on tables regenerated from the running code on every run (exact Q(zeta_8) arithmetic, no sampling): for '
+        'CliffordTableau.apply_x / apply_y / apply_z at exponents 1/2, 1, 3/2, apply_h, apply_cz and apply_cx the update of *every* row '
+        'pattern (all (x,z,r) resp. (xc,zc,xt,zt,r)) is the signed Pauli U P U^dagger for the matrix U that cirq.unitary reports for the gate, '
+        'and U is unitary (tableau_rule_<g>); _rowsum multiplies commuting row Paulis with the right sign (rowsum_is_product). Lean theorems: '
+        'row patterns are Hermitian unitaries, Y = iXZ. T2: random Clifford circuits on 1..5 qubits: CliffordSimulator CH-form amplitudes incl. '
+        'global phase against the Lean interpreter; tableau stabilizers stabilise that state and pair symplectically with the destabilizers; '
+        'all 24 single-qubit Clifford gates (from_unitary, inverse, decompose, to_phased_xz_gate, all 576 merged_with, tableau round trip) and '
+        'two-qubit Clifford elements built from op lists (from_op_list, inverse, powers, decompositions, tableau then / inverse).',
+        'Trusted: Lean kernel; extractor + harness + driver; lifting of a row rule from the tabulated one/two-qubit patterns to n-qubit '
+        'tableaux, CH-form update rules and tableau composition (`then`) are covered by T2 only (partial, see DESIGN.md); measurement branch '
+        'probabilities of the Clifford simulator are checked under C02.',
+        'kernel-decided exhaustive tables regenerated from the code (Lean 4, decide +kernel) + differential check',
+        'DESIGN.md §3 C13',
+    ),
     'C14': (
         'Lean 4 theorems for every number of qubits: the product of two Pauli strings computed with the single-qubit table (power of i '
         'included) acts on every computational basis state exactly as the composition of the two operators (C14_pauli_mul_hom, induction '
